@@ -23,7 +23,7 @@ def relevant(prop, f):
             return c & {"S_ok", "U_lossless", "U_raise"} if l >= 3 else set()
         return c & {"S_ok", "U_lossless", "U_raise", "U_idem"} if sk == "parse" else set()
     if prop == "C02":
-        return c & {"K_ok", "U_exact", "U_idem", "S_ok", "U_raise"} if sk == "ctor" else set()
+        return c & {"K_ok", "U_exact", "U_idem", "S_ok", "U_raise"} if sk in ("ctor", "reunstructure") else set()
     if prop == "C03":
         return c & {"S_typed"}
     if prop == "C10":
@@ -59,7 +59,7 @@ def relevant(prop, f):
 
 
 SESSION_KINDS = {
-    "C01": ["parse", "reparse"], "C02": ["ctor"], "C03": ["parse", "ctor", "unk", "dropspecial"], "C10": ["ctor", "dropspecial", "mutate"],
+    "C01": ["parse", "reparse"], "C02": ["ctor", "reunstructure"], "C03": ["parse", "ctor", "unk", "dropspecial"], "C10": ["ctor", "dropspecial", "mutate"],
     "C11": ["dropreq", "enum", "lit", "intval", "nested"], "C12": ["intval"], "C13": ["enum", "parse", "ctor"], "C14": ["parse"],
     "C15": ["unk"],
 }
